@@ -21,6 +21,8 @@ for d in sorted(glob.glob(os.path.join(V, "seeded", "*"))):
     if old_owner and new_owner and ("rc=1" in old_owner[0]) != ("rc=1" in new_owner[0]):
         m.setdefault("history", []).append({"note": "owning check before the workload was strengthened", "observed": old.get("observed", [])})
     others = [l for l in old.get("observed", []) if l.startswith("check ") and not l.startswith("check " + prop + " ")]
+    if not others:
+        others = old.get("neighbour_checks_from_first_run", [])
     m["ran"] = {"when": "2026-09-29", "command": "tools/seedtest.sh seeded/%s quick %s" % (name, prop), "observed": lines, "neighbour_checks_from_first_run": others}
     m["detected_by"] = sorted(set(det + [l.split()[1] for l in others if "rc=1" in l]))
     json.dump(m, open(mp, "w"), indent=1)
